@@ -1,11 +1,248 @@
-import Py4hwV.Lib.Fp
-import Py4hwV.Lib.FpSpec
-import Py4hwV.Props.C07
-import Py4hwV.Props.C08
-namespace C13
-open Lib Lib.Fp
+import Py4hwV.Proofs.C13Mul
+import Py4hwV.Proofs.C13Add
+import Py4hwV.Helper.Spec
+/-
+  C13 — Single-precision floating-point blocks meet IEEE-754 within stated error bounds.
 
+  Models: `Lib.Fp.*` (Lib/Fp.lean) — one definition per Python constructor, composed from the C07/C08 constructor models
+  over the reference leaves `Leaf.*`, which are bridged to the GENERATED `propagate()` bodies by `Leaf.gen_*` /
+  `C08.gen_*` (so a semantic change of a leaf breaks a bridge, a change of a constructor breaks the model-vs-real stream).
+  Specification: `FpSpec.*` (Lib/FpSpec.lean): exact integer arithmetic in units of 2^-149 — the real value of a normal
+  encoding `x` is `sval x · 2^-149` (`decode_normal`/`sval_decode` tie this to `Helper.IEEE.decode IEEE.single`).
+  The harness evaluates the SAME `FpSpec` predicates (through Drv/C13.lean) on the bits observed on the real blocks.
+
+  Operands are arbitrary 32-bit words that are finite and normal: `FpSpec.normal x` (exponent field 1..254).
+-/
+namespace C13
+open Lib Lib.Fp Lib.LSpec FpSpec
+
+/-! ## the value function -/
+
+/-- IEEE-754 reading of a normal encoding: `(−1)^s · (2^23 + frac) · 2^(exp − 150)` -/
+theorem decode_normal (x : Nat) (h : normal x = true) :
+    Helper.IEEE.decode Helper.IEEE.single x
+      = .fin (signOf x == 1) ⟨(mant x : Int), (expOf x : Int) - 150⟩ := by
+  unfold normal at h
+  simp only [Bool.and_eq_true, decide_eq_true_eq] at h
+  obtain ⟨⟨h1, h2⟩, h3⟩ := h
+  have e1 : Helper.IEEE.signOf Helper.IEEE.single x = signOf x := rfl
+  have e2 : Helper.IEEE.expOf Helper.IEEE.single x = expOf x := rfl
+  have e3 : Helper.IEEE.manOf Helper.IEEE.single x = fracOf x := rfl
+  unfold Helper.IEEE.decode
+  simp only [e1, e2, e3]
+  have n1 : (expOf x == 2 ^ Helper.IEEE.single.ebits - 1) = false := by
+    show (expOf x == 2^8 - 1) = false
+    simp only [Nat.reducePow, Nat.reduceSub, beq_eq_false_iff_ne, ne_eq]; omega
+  have n2 : (expOf x == 0) = false := by simp only [beq_eq_false_iff_ne, ne_eq]; omega
+  rw [n1, n2]
+  simp only [Bool.false_eq_true, if_false]
+  show Helper.PyFloat.fin _ ⟨((2:Int)^23 + (fracOf x : Int)), (expOf x : Int) - (2^(8-1) - 1) - ((23:Nat):Int)⟩ = _
+  unfold mant
+  congr 2
+  omega
+
+/-- … and `sval` is that value scaled by 2^149 (an integer): `sval x = ± n · 2^(k+149)` for the decoded dyadic `n · 2^k` -/
+theorem sval_decode (x : Nat) (h : normal x = true) :
+    sval x = (if signOf x = 1 then -1 else 1) * ((mant x : Int) * 2^(((expOf x : Int) - 150 + 149).toNat)) := by
+  unfold normal at h
+  simp only [Bool.and_eq_true, decide_eq_true_eq] at h
+  unfold sval mag
+  rw [show ((expOf x : Int) - 150 + 149).toNat = expOf x - 1 by omega]
+  split <;> simp [Int.natCast_mul, Int.natCast_pow]
+
+/-! ## (1) comparator: gt/eq/lt order the operands exactly as their real values -/
+
+theorem normal_exp (x : Nat) (h : normal x = true) : x < 2^32 ∧ 1 ≤ expOf x ∧ expOf x ≤ 254 := by
+  unfold normal at h
+  simp only [Bool.and_eq_true, decide_eq_true_eq] at h
+  exact ⟨h.1.1, h.1.2, h.2⟩
+
+/-- plain mode: `(gt, eq, lt) = ([b < a], [a = b], [a < b])` on the real values -/
+theorem fpcmp_spec (a b : Nat) (ha : normal a = true) (hb : normal b = true) : fpcmp false a b = FpSpec.cmp a b :=
+  fpcmp_spec' a b (normal_exp a ha).2.1 (normal_exp b hb).2.1
+
+/-- absolute mode: the same on `|a|`, `|b|` -/
+theorem fpcmp_abs_spec (a b : Nat) (ha : normal a = true) (hb : normal b = true) : fpcmp true a b = FpSpec.cmpAbs a b :=
+  fpcmp_abs_spec' a b (normal_exp a ha).2.1 (normal_exp b hb).2.1
+
+/-- readable corollary: exactly one of the three outputs is 1, and it is the right one -/
+theorem fpcmp_iff (a b : Nat) (ha : normal a = true) (hb : normal b = true) :
+    ((fpcmp false a b).1 = 1 ↔ sval b < sval a) ∧ ((fpcmp false a b).2.1 = 1 ↔ sval a = sval b) ∧
+    ((fpcmp false a b).2.2 = 1 ↔ sval a < sval b) := by
+  rw [fpcmp_spec a b ha hb]
+  unfold FpSpec.cmp
+  have e : ∀ x : Bool, (b2n x = 1) ↔ (x = true) := fun x => by cases x <;> decide
+  simp only [e, decide_eq_true_eq]
+  exact ⟨trivial, trivial, trivial⟩
+
+example : fpcmp false 0x3F800000 0xC0000000 = (1, 0, 0) ∧ fpcmp true 0x3F800000 0xC0000000 = (0, 0, 1)
+    ∧ normal 0x3F800000 = true ∧ normal 0xC0000000 = true := by decide +kernel      -- 1.0 vs −2.0
+
+/-! ## (2) conversions -/
+
+/-- InttoFP_SP, every 32-bit word `a` (read as two's complement `x`): zero gives +0; otherwise the result is a normal
+    encoding whose value is `x` truncated toward zero to 24 significant bits; `p_lost = 1` iff truncation discarded a
+    non-zero bit.  Full statement, no exception. -/
+theorem inttofp_spec (a : Nat) (ha : a < 2^32) :
+    (int32 a = 0 → (inttofp a).1 = 0) ∧
+    (int32 a ≠ 0 → normal (inttofp a).1 = true ∧
+       sval (inttofp a).1 = (if int32 a < 0 then -1 else 1) * ((truncSig (int32 a).natAbs : Nat) : Int) * 2^149) ∧
+    (inttofp a).2 = b2n (lostSig (int32 a).natAbs) := inttofp_spec' a ha
+
+/-- … which is exactly the oracle the harness runs on the real block -/
+theorem inttofp_oracle (a : Nat) (ha : a < 2^32) : i2fOk a (inttofp a).1 (inttofp a).2 = true := by
+  obtain ⟨h1, h2, h3⟩ := inttofp_spec a ha
+  unfold i2fOk i2f
+  simp only [Bool.and_eq_true, beq_iff_eq]
+  refine ⟨?_, h3⟩
+  by_cases h0 : int32 a = 0
+  · rw [if_pos h0]; simp [h1 h0]
+  · rw [if_neg h0]
+    obtain ⟨n1, n2⟩ := h2 h0
+    simp only [Bool.and_eq_true, decide_eq_true_eq]
+    exact ⟨n1, n2⟩
+
+example : inttofp 16777217 = (0x4B800000, 1) ∧ inttofp (2^32 - 3) = (0xC0400000, 0) := by decide +kernel
+
+/-- FPtoInt_SP on a normal operand `x`: never `denorm`; for |x| < 2^31: not invalid, `r = trunc(x)` (two's complement);
+    for |x| ≥ 2^31: invalid.  The p_lost output is what the code computes: discarded bits OR an odd integer part. -/
+theorem fptoint_spec (a : Nat) (ha : normal a = true) :
+    (fptoint a).denorm = 0 ∧
+    (fitsInt a = true → (fptoint a).invalid = 0 ∧ (fptoint a).r = f2iR a ∧
+        (fptoint a).p_lost = b2n (f2iLost a || decide (mag a / 2^149 % 2 = 1))) ∧
+    (fitsInt a = false → (fptoint a).invalid = 1) := by
+  obtain ⟨_, h1, h2⟩ := normal_exp a ha
+  by_cases hs : expOf a ≤ 126
+  · obtain ⟨c1, c2, c3, c4, c5⟩ := fptoint_small a h1 hs
+    exact ⟨c1, fun _ => ⟨c2, c3, c4⟩, fun h => by rw [c5] at h; exact absurd h (by decide)⟩
+  · by_cases hm : expOf a ≤ 157
+    · obtain ⟨c1, c2, c3, c4, c5⟩ := fptoint_mid a (by omega) hm
+      exact ⟨c1, fun _ => ⟨c2, c3, c4⟩, fun h => by rw [c5] at h; exact absurd h (by decide)⟩
+    · obtain ⟨c1, c2, c3⟩ := fptoint_big a (by omega) h2
+      exact ⟨c1, fun h => by rw [c3] at h; exact absurd h (by decide), fun _ => c2⟩
+
+/- FULL STATEMENT for p_lost (FALSE of the current code, see `fptoint_plost_counterexample`):
+     ∀ a, normal a → fitsInt a → (fptoint a).p_lost = b2n (f2iLost a)
+   `pos_ext_p_lost = (hw_range(shifted, 32, 0) != 0)` (arithmetic_fp.py:273) takes 33 bits: bit 32 is the least
+   significant bit of the INTEGER part, so an odd integral value raises p_lost although nothing was discarded.
+   Proved below under the forced hypothesis "not (integral and odd)" = complement of `FpSpec.f2iOddClass`. -/
+theorem fptoint_plost_partial (a : Nat) (ha : normal a = true) (hf : fitsInt a = true) (hc : f2iOddClass a = false) :
+    (fptoint a).p_lost = b2n (f2iLost a) := by
+  rw [((fptoint_spec a ha).2.1 hf).2.2]
+  unfold f2iOddClass at hc
+  rw [hf] at hc
+  cases hl : f2iLost a
+  · rw [hl] at hc
+    simp only [Bool.true_and, Bool.not_false, decide_eq_false_iff_not] at hc
+    simp [hc]
+  · simp
+
+theorem fptoint_plost_counterexample :
+    normal 0x3F800000 = true ∧ fitsInt 0x3F800000 = true ∧ f2iLost 0x3F800000 = false ∧
+    fptoint 0x3F800000 = ⟨1, 1, 0, 0⟩ := by decide +kernel          -- 1.0 ↦ r = 1 with p_lost = 1
+
+/-- the oracle of the harness, outside the finding's class -/
+theorem fptoint_oracle (a : Nat) (ha : normal a = true) (hc : f2iOddClass a = false) :
+    f2iCheck a (fptoint a).r (fptoint a).p_lost (fptoint a).denorm (fptoint a).invalid = "" := by
+  obtain ⟨h1, h2, h3⟩ := fptoint_spec a ha
+  unfold f2iCheck
+  rw [h1]
+  simp only [ne_eq, not_true_eq_false, if_false]
+  cases hf : fitsInt a
+  · simp [h3 hf]
+  · obtain ⟨c1, c2, _⟩ := h2 hf
+    simp [c1, c2, fptoint_plost_partial a ha hf hc]
+
+example : fptoint 0xC0200000 = ⟨0xFFFFFFFE, 1, 0, 0⟩ ∧ fptoint 0x4F000000 = ⟨0x80000000, 0, 0, 1⟩ := by decide +kernel   -- −2.5, 2^31
+
+/-! ## (3) multiplier -/
+
+/-- FPMult_SP: both operands normal and the exact product normal ⇒ the result is a normal encoding and
+    |decode r − a·b| < 1 ulp(r)  (stated in units of 2^-298: `sval r · 2^149` vs `sval a · sval b`) -/
+theorem fpmul_ulp (a b : Nat) (ha : normal a = true) (hb : normal b = true) (hp : prodNormal a b = true) :
+    mulOk a b (fpmul a b) = true :=
+  fpmul_ulp' a b (normal_exp a ha).2.1 (normal_exp a ha).2.2 (normal_exp b hb).2.1 (normal_exp b hb).2.2 hp
+
+/-- … for ALL pairs of words, in or out of the domain -/
+theorem fpmul_comm (a b : Nat) : fpmul a b = fpmul b a := fpmul_comm' a b
+
+example : fpmul 0x3FC00000 0x40100000 = 0x40580000 ∧ prodNormal 0x3FC00000 0x40100000 = true
+    ∧ mulOk 0x3FC00000 0x40100000 0x40580000 = true := by decide +kernel       -- 1.5 · 2.25 = 3.375
+
+/-! ## (4) adder -/
+
+/-- the exponent difference is a FIVE-bit wire: 2^32 + 1.5 gives 1.0737·10^10 (exponent gap 32 wraps to 0) -/
 theorem fpadd_gap32_counterexample :
-    fpadd 0x4F800000 0x3FC00000 = 0x50200000 := by decide +kernel
+    normal 0x4F800000 = true ∧ normal 0x3FC00000 = true ∧ sumNormal 0x4F800000 0x3FC00000 = true ∧
+    fpadd 0x4F800000 0x3FC00000 = 0x50200000 ∧ addOk 0x4F800000 0x3FC00000 0x50200000 = false ∧
+    gapClass 0x4F800000 0x3FC00000 = true := by decide +kernel
+
+/-- FPAdder_SP gives the same word with its operands swapped whenever the magnitudes differ or the operands are equal … -/
+theorem fpadd_comm_fields (a b : Nat) (ha : a < 2^32) (hb : b < 2^32)
+    (h : ¬ (expOf a = expOf b ∧ fracOf a = fracOf b) ∨ a = b) : fpadd a b = fpadd b a := fpadd_comm' a b ha hb h
+
+/-- … in particular on the whole domain of the property (operands normal, exact sum normal — the only excluded case
+    `b = −a` has exact sum 0), for EVERY exponent gap (also ≥ 32) -/
+theorem fpadd_comm (a b : Nat) (ha : normal a = true) (hb : normal b = true) (hs : sumNormal a b = true) :
+    fpadd a b = fpadd b a := by
+  obtain ⟨a32, a1, _⟩ := normal_exp a ha
+  obtain ⟨b32, b1, _⟩ := normal_exp b hb
+  apply fpadd_comm' a b a32 b32
+  by_cases hf : expOf a = expOf b ∧ fracOf a = fracOf b
+  · right
+    have wa := word_of_fields a a32
+    have wb := word_of_fields b b32
+    have sa := signOf_lt a
+    have sb := signOf_lt b
+    by_cases hsg : signOf a = signOf b
+    · rw [wa, wb, hf.1, hf.2, hsg]
+    · exfalso
+      have hm : mag a = mag b := (mag_eq_iff a b a1 b1).mpr hf
+      unfold sumNormal inNormalRange sum sval at hs
+      simp only [Bool.and_eq_true, decide_eq_true_eq] at hs
+      rw [hm] at hs
+      have : signOf a = 0 ∧ signOf b = 1 ∨ signOf a = 1 ∧ signOf b = 0 := by omega
+      rcases this with ⟨h1, h2⟩ | ⟨h1, h2⟩ <;> simp [h1, h2] at hs <;> omega
+  · left; exact hf
+
+/-- what the adder computes after the swap, as plain arithmetic on the fields (A = operand of larger magnitude, gap < 32):
+    alignment `mb3 = ⌊mB / 2^d⌋` (truncation), `mr = mA ± mb3` on 25 bits, normalisation by `c = clz(mr)`,
+    exponent `eA − c + 1` (mod 256), fraction = bits 23..1 of `mr · 2^c` (truncation, the rounding wires drive nothing) -/
+theorem fpadd_datapath (A B : Nat) (hA : 1 ≤ expOf A) (hB : 1 ≤ expOf B) (hle : expOf B ≤ expOf A)
+    (hgap : expOf A - expOf B < 32) :
+    let mA := 2^23 + fracOf A
+    let mB := 2^23 + fracOf B
+    let mb3 := mB / 2^(expOf A - expOf B)
+    let mr : Nat := if signOf A = signOf B then (mA + mb3) % 2^25 else Leaf.sub 25 mA mb3
+    let c : Nat := if mr = 0 then 25 else 24 - mr.log2
+    fpaddCore A B = signOf A * 2^31 + ((((expOf A + 256 - c) % 256 + 1) % 256) * 2^23 + (mr * 2^c % 2^25) / 2 % 2^23) :=
+  fpaddCore_eq A B hA hB hle hgap
+
+/- FULL STATEMENT (FALSE of the current code for exponent gaps ≥ 32, see `fpadd_gap32_counterexample`):
+     ∀ a b, normal a → normal b → sumNormal a b → addOk a b (fpadd a b) = true
+       (addOk: result normal, sign of the exact sum, |decode r − (a+b)| < 2 ulp of the operand of larger magnitude)
+
+   PARTIAL STATEMENT under the forced hypothesis (complement of `FpSpec.gapClass`) — NOT YET PROVED, kept here at full strength:
+     theorem fpadd_sign_ulp_partial (a b : Nat) (ha : normal a = true) (hb : normal b = true) (hs : sumNormal a b = true)
+         (hg : gapClass a b = false) : addOk a b (fpadd a b) = true
+
+   What is proved towards it (all machine-checked, above / in Proofs/C13Add.lean):
+     * `fpadd_swap`      fpadd a b = fpaddCore (larger magnitude) (smaller magnitude), via `fpcmp_abs_fields`, `mag_lt_iff`
+     * `fpadd_datapath`  the swapped datapath as arithmetic on the fields for every gap < 32 (uses C07.shiftRight_logical_spec,
+                         add_spec, countLeadingZeros_spec, shiftLeft_spec, C08.concatMSBF_spec, xor2_bool)
+     * `fpadd_comm`      commutativity on the whole domain (every gap)
+   Missing lemmas (pure arithmetic on naturals; with U = 2^(eB−1), D = 2^d, rr = mB mod D, L = log2 mr, all 2^23 ≤ mA, mB < 2^24):
+     (a) `add_exact`   : |S| = (mr·D + rr)·U (equal signs, mr = mA + ⌊mB/D⌋)  resp.  |S| = (mr·D − rr)·U (opposite signs,
+                         mr = mA − ⌊mB/D⌋ ≥ 0 because mag B ≤ mag A), where S = sval A + sval B
+     (b) `norm_value`  : for 0 < mr < 2^25: L ≤ 23 ∧ eA + L ≥ 24 → mag r = mr·D·U;   L = 24 → mag r = (mr − mr mod 2)·D·U,
+                         with expOf r = eA + L − 23 (two `Nat.pow_add` splits, as in `fpmul_ulp'`)
+     (c) `exp_in_range`: sumNormal ⇒ mr ≠ 0 ∧ 1 ≤ eA + L − 23 ≤ 254 (by `pow_bound_lo/hi` as for the multiplier)
+     (d) sign: signOf r = signOf A = sign of S (S ≠ 0, mag B ≤ mag A) and the final |sval r − S| < 2·2^(eA−1) from (a),(b): the
+         error is rr·U < D·U for L ≤ 23 and ((mr mod 2)·D + rr)·U < 2·D·U for L = 24 (`signed_diff`-style case split on the signs).
+   Until then the claim for gap < 32 rests on the correspondence (model = real block on every input tried) plus the oracle
+   `FpSpec.addOk` evaluated in Lean on the real block's output bits (harness/c13.py), not on a theorem. -/
+
+example : fpadd 0x3FC00000 0x40100000 = 0x40700000 ∧ fpadd 0x40100000 0x3FC00000 = 0x40700000
+    ∧ addOk 0x3FC00000 0x40100000 0x40700000 = true := by decide +kernel       -- 1.5 + 2.25 = 3.75
 
 end C13
